@@ -29,7 +29,7 @@ from vlib.ob import TIER, HarnessDefect, cover, fail, obligation, tiered
 from vlib.stubs import plain_error_messages, silence_logging
 
 STUBS = silence_logging() + plain_error_messages()
-NAMES = "ab_"  # '_' is a private name: skipped by a wildcard import unless listed in __all__
+NAMES = ["a", "b", "_", "__d__"]  # '_' is a private name and '__d__' a dunder one: both skipped by a wildcard import unless listed in __all__
 
 
 def _star(mod, l):
@@ -61,9 +61,14 @@ def build_package(s_all, local_kind, explicit, chain, pkg_all, n1, n2, n3, n4, k
     # s: two definitions (a function and a class), optional __all__, optional star import from t (placed first)
     if chain:
         mods["t"] = [(1, ("def", n4)), (3, ("assign", "_"))]
+        if s_all == "plus_t":
+            mods["t"].append((5, ("all", [n4], None)))
         mods["s"].append((1, ("star", "t")))
     mods["s"] += [(3, ("def", n1)), (6, ("class", n2))]
-    if s_all:
+    if s_all == "plus_t":
+        # __all__ assembled from another module's __all__, itself re-exported one level up (chain of depth 2)
+        mods["s"] += [(9, ("import_mod", "t")), (10, ("all", [e1], "t"))]
+    elif s_all:
         mods["s"].append((10, ("all", [e1], None)))
     # pkg/__init__: star import from s at l_star, a local definition at l_def, optional explicit import at l_exp, optional __all__
     pk = [(l_star, ("star", "s")), (l_def, (local_kind, n3))]
@@ -219,6 +224,11 @@ for _s_all in (False, True):
                     CASES.append(dict(s_all=_s_all, local_kind=_local, explicit=_explicit, chain=_chain, pkg_all=_pkg_all))
 
 
+CASES += [dict(s_all="plus_t", local_kind="def", explicit="none", chain=True, pkg_all=_p) for _p in ("plus", "none")]
+if TIER == "thorough":
+    CASES += [dict(s_all="plus_t", local_kind=_l, explicit=_e, chain=True, pkg_all=_p) for _l in ("def", "assign") for _e in ("plain", "as") for _p in ("plus", "own", "none")]
+
+
 def _pin(c):
     c = dict(c)
     c["n2"] = "b"
@@ -243,7 +253,7 @@ def _replay(**a):
             if stmts:
                 Path(d, "pkg", "__init__.py" if mod == "pkg" else f"{mod}.py").write_text(to_source(stmts))
         code = ("import json, sys, inspect\nsys.path.insert(0, %r)\ntry:\n    import pkg\nexcept Exception as e:\n    print(json.dumps({'error': repr(e)})); raise SystemExit\n"
-                "out = {}\nfor n, v in vars(pkg).items():\n    if n.startswith('__') or inspect.ismodule(v): continue\n"
+                "out = {}\nSKIP = {'__name__', '__doc__', '__package__', '__loader__', '__spec__', '__path__', '__file__', '__cached__', '__builtins__', '__all__'}\nfor n, v in vars(pkg).items():\n    if n in SKIP or inspect.ismodule(v): continue\n"
                 "    out[n] = (v.__module__ + '.' + v.__qualname__) if hasattr(v, '__qualname__') else None\nprint(json.dumps(out))\n") % d
         r = subprocess.run([sys.executable, "-c", code], capture_output=True, text=True, timeout=60, env={"PYTHONDONTWRITEBYTECODE": "1"})
         real = json.loads(r.stdout.strip().splitlines()[-1])
@@ -271,24 +281,28 @@ def _replay(**a):
 
 
 def _nm(s):
-    return len(s) == 1 and s in NAMES
+    return s in NAMES
+
+
+def _nf(s):
+    return s == "a" or s == "_" or s == "__d__"
 
 
 @obligation(
     pid="C05", name="package_namespace", timeout=tiered(280, 1800), path_timeout=60.0,
     shards=lambda: [(f"case {i}: {c}", None, [_pin(c)]) for i, c in enumerate(CASES)],
-    pre=lambda s_all, local_kind, explicit, chain, pkg_all, n1, n2, n3, n4, k, e1, l_star, l_def, l_exp: n2 == "b" and len(n1) == 1 and n1 in "a_" and len(k) == 1 and k in "a_" and len(n4) == 1 and n4 in "a_"
-    and _nm(n3) and _nm(e1)
+    pre=lambda s_all, local_kind, explicit, chain, pkg_all, n1, n2, n3, n4, k, e1, l_star, l_def, l_exp: n2 == "b" and _nf(n1) and len(k) == 1 and k in "a_" and _nf(n4)
+    and _nm(n3) and n3 != "__d__" and _nm(e1)
     and 1 <= l_star <= 30 and 1 <= l_def <= 30 and 1 <= l_exp <= 30 and l_star != l_def and l_star != l_exp and l_def != l_exp and abs(l_star - l_def) > 1 and abs(l_exp - l_def) > 1,
     drives=[GriffeLoader.expand_exports, GriffeLoader.expand_wildcards, GriffeLoader._expand_wildcard, GriffeLoader.resolve_aliases, GriffeLoader.resolve_module_aliases, Alias.resolve_target,
             ObjectAliasMixin.is_wildcard_exposed.fget, Visitor.visit_importfrom, Visitor.handle_attribute],
-    bounds={"package": "pkg/__init__.py + pkg/s.py (+ pkg/t.py star-imported by s, thorough)", "s": "def n1, class n2 (with a method), optional __all__ = [e1]",
+    bounds={"package": "pkg/__init__.py + pkg/s.py (+ pkg/t.py star-imported by s, thorough)", "s": "def n1, class n2 (with a method), optional __all__ = [e1] or t.__all__ + [e1] (t then declares __all__ = [n4])",
             "pkg": "from .s import * at l_star; a local def/assignment n3 at l_def; optional `from .s import n1 [as k]` at l_exp; optional __all__ = [n3] or s.__all__ + [n3]",
-            "names": "function n1 in {a,_}, class n2 = b, local n3 and __all__ entry e1 in {a,b,_}, alias name k in {a,_} (underscore = private)", "line numbers": "1..30, pairwise distinct: every relative order of the statements"},
+            "names": "function n1 in {a,_,__d__}, class n2 = b, local n3 in {a,b,_}, __all__ entry e1 in {a,b,_,__d__}, alias name k in {a,_} (underscore = private, __d__ = dunder)", "line numbers": "1..30, pairwise distinct: every relative order of the statements"},
     value_symbolic=["the line numbers of the star import, the local definition and the explicit import (symbolic through the loader's precedence comparisons)", "every defined / imported / exported name (case-split by the engine at entry)"],
     selectors=["presence of __all__ in s and in pkg, kind of the local binding, explicit import form, chain through t (driver-bound)"],
     stubs=STUBS + ["modules visited from hand-built ASTs and attached in memory; ModuleFinder pointed at /nonexistent"],
-    must_cover=["star-then-local", "local-then-star", "private-skipped", "all-filters"],
+    must_cover=["star-then-local", "local-then-star", "private-skipped", "dunder-skipped", "all-filters", "all-chain-depth-2"],
     grid=lambda seed: [dict(_pin(c), **{kk: vv for kk, vv in dict(n1="a", n2="b", n3="a", n4="b", k="b", e1="a", l_star=5, l_def=10, l_exp=20).items() if kk not in _pin(c)}) for c in CASES[::3]]
     + [dict(_pin(c), **{kk: vv for kk, vv in dict(n1="_", n2="b", n3="b", n4="b", k="a", e1="_", l_star=12, l_def=4, l_exp=8).items() if kk not in _pin(c)}) for c in CASES[1::4]],
     replay=lambda **a: _replay(**a),
@@ -326,6 +340,10 @@ def package_namespace(s_all: bool, local_kind: str, explicit: str, chain: bool, 
     cover("star-then-local" if l_star < l_def else "local-then-star")
     if "_" in (n1, n2) and not s_all:
         cover("private-skipped")
+    if "__d__" in (n1, n2) and not s_all:
+        cover("dunder-skipped")
+    if s_all == "plus_t" and pkg_all == "plus":
+        cover("all-chain-depth-2")
     if s_all:
         cover("all-filters")
     return True
